@@ -3,6 +3,46 @@
 import json, subprocess
 
 CLAIMED = {
+ "C01": dict(
+   text="Bounded model checking of the real Marshal/Unmarshal code: for each of ~45 catalogue types (every codec kind in every position: scalars of every width, flat/intern/proto tags, pointers, packed/fixed/counted slices, pointer slices, nested and recursive structs, maps with string/int/struct keys and pointer/struct/slice values, time, null.*, named types, multi-byte tags, top-level non-struct values) a value whose integers, floats (bit patterns), string bytes and time fields are unrestricted solver symbols and whose shapes (nil / empty / populated, lengths up to the bound) are enumerated is marshalled and unmarshalled by the symbolically executed library; round-trip equality up to the documented normalisations is one solver query per path (unsat = holds for every value of that shape). Default and proto-compatible configurations.",
+   note="Bounds: string/[]byte length <=1 (quick) / <=2 (thorough), slice length <=1/2, map entries <=1/2, struct nesting depth 2/3; all scalar values unrestricted. Types outside the catalogue (incl. types built with reflect.StructOf) and larger sizes are outside the claim. reflect is modelled from go/types; codec construction runs inside the engine on that model.",
+   design="DESIGN.md §4 C01"),
+ "C02": dict(
+   text="Differential bounded model checking against an independent definition of the wire format: a reference encoder generated from the catalogue's static types implements README.md / wire.go / the golden files (tags, zig-zag vs plain varints, fixed widths, length prefixes, packed vs counted slices, map entries as key=1/value=2, omission rules, declaration order) without calling plenc; for every catalogue type and every value within the bounds the solver decides impl_bytes == ref_bytes (for some rotation of map entry order). Decode side: the reference encoding with the top-level fields in every order (all permutations up to 3 fields) must unmarshal to the value.",
+   note="Same bounds and catalogue as C01. The reference encoder is trusted as the statement of the format; it is cross-checked natively against plenc on every replayed witness.",
+   design="DESIGN.md §4 C02"),
+ "C03": dict(
+   text="Bounded model checking of decode-into-evolved-type: 13 old types carry one field of every wire shape (varint, flat, fixed32/64, string, nested struct, packed, fixed and counted slices, map, time, pointer) between two surviving fields; their encodings (symbolic values) are decoded by the real code into the evolved type (field removed, others renamed and reordered, one added), both pre-populated with symbolic prior contents and fresh; the solver decides that every surviving field gets exactly its value (or keeps the prior one when absent) and the added field is untouched - i.e. the unknown field was skipped exactly. Also nested, slice-element and map-value positions and the proto-compatible writer.",
+   note="Bounds as C01. Pairs outside the 17 listed are outside the claim; changing a field's type is documented as unsupported.",
+   design="DESIGN.md §4 C03"),
+ "C04": dict(
+   text="Bounded model checking of decoder totality: for 33 target types (every Read implementation) and their descriptors, Unmarshal / Descriptor.Read run symbolically on a byte string whose length (0..4 quick, 0..6 thorough) is enumerated and whose every byte is a free 8-bit symbol, with and without spare capacity behind the slice (spare bytes poisoned: any read is a violation). Every implicit run-time check (index, slice bounds incl. negative after int(uint64), nil, type confusion of unsafe casts), every allocation request (must stay within 4096*(len+1) bytes) and every loop (unwinding bound len+8) is a solver query on every path.",
+   note="Outside the bound: inputs longer than stated, targets not listed (JSON-any codecs are under C16). Wall-clock promptness is represented by the unwinding bound. One committed known finding: Descriptor() of recursive types overflows the stack.",
+   design="DESIGN.md §4 C04"),
+ "C05": dict(
+   text="Bounded model checking of the codec laws on the codecs plenc builds for every catalogue type (both configurations): Size(ptr,nil)==len(Append(nil,ptr,nil)); with a tag whose index is a solver symbol, Size(ptr,tag)==len(Append(nil,ptr,tag)); framing = tag, varint(len(body)) for WTLength, body; Read(body) succeeds and consumes exactly len(body). Values symbolic as in C01.",
+   note="Bounds as C01; tag index in [1,2^11) quick / [1,2^28) thorough. Exported BigQuery timestamp and JSON-any codecs are checked in dedicated harnesses.",
+   design="DESIGN.md §4 C05"),
+ "C06": dict(
+   text="Bounded model checking of Marshal's append contract on 15 representative types: symbolic prefix bytes (0 or 2), spare capacity 0/1/64, value symbolic incl. the all-zero value: prefix bytes unchanged, appended bytes == Marshal(nil,v), by-value == by-pointer (the engine reproduces gc's direct-interface representation), re-marshal into the reused buffer identical.",
+   note="Bounds as C01; histories of 3 calls.",
+   design="DESIGN.md §4 C06"),
+ "C09": dict(
+   text="Bounded model checking of presence: round trips of pointer fields to every kind, pointer-valued map entries (string and int keys, scalar and struct pointees), nested pointers, null.Int/Bool/Float/String/Time (plain, nested, behind pointers) with symbolic values incl. zero/empty pointees; plus Descriptor.ExplicitPresence compared with the static type for every field (concrete structural check).",
+   note="Bounds as C01.",
+   design="DESIGN.md §4 C09"),
+ "C10": dict(
+   text="Bounded model checking of merge rules and history independence: decode of symbolic data into targets pre-populated with symbolic contents (structs, nested structs, pointers nil/non-nil, slices shorter/longer than the data with symbolic garbage in spare capacity, maps with a prior entry, proto-form append) against the documented merge result; and two consecutive decodes on one Plenc instance (pool scratch and intern tables carried over) must give the second result a fresh instance gives and leave the first result intact.",
+   note="sync.Pool.Get is modelled as returning the most recently Put item (the runtime's single-goroutine behaviour), which is the state-leaking case. Histories of 2 calls; first call's integers restricted to one-byte varints in the quick tier.",
+   design="DESIGN.md §4 C10"),
+ "C11": dict(
+   text="Bounded model checking of non-aliasing: after Unmarshal the input buffer is overwritten with fresh solver symbols and the decoded value must still equal the original (strings, byte slices, map keys and values, interned strings, null strings); the input bytes must be unchanged by Unmarshal; Marshal must leave the value unchanged. The engine's string/[]byte conversions allocate exactly where Go copies, so a zero-copy cast shows up as dependence on the overwritten buffer.",
+   note="Bounds as C01; 11 representative types.",
+   design="DESIGN.md §4 C11"),
+ "C12": dict(
+   text="Bounded model checking of the proto-compatible configurations: for every catalogue struct whose encoding the options change, under {Arrays+Time}, {Arrays}, {Time}: the output parses with an independent protobuf wire reader (only wire types 0,1,2,5, exact lengths, recursively into message-typed fields, Timestamp fields plain varints), equals the reference encoding for that configuration (so each switch changes only its own fields), round-trips in the same configuration, and a default-mode instance decodes the repeated-field form to the same value.",
+   note="Bounds as C01.",
+   design="DESIGN.md §4 C12"),
  "C18": dict(
    text="Bounded model checking of the real plenccore functions: AppendVarUint/ReadVarUint/SizeVarUint/ZigZag/ZagZig/SizeVarInt/AppendTag/ReadTag/SizeTag are executed symbolically from /repo's SSA with unrestricted 64-bit symbols and compared with independent reference definitions; every assertion is an unsat verdict over all 2^64 values (no sampling). ReadVarUint is compared with a reference decoder on every byte string up to 4 (quick) / 11 (thorough) bytes, Skip on every byte string up to 5 / 8 bytes for every wire type 0..7, including the no-panic, no-over-run and loop-unwinding obligations.",
    note="Trusted: go/ssa lowering, symgo's Go semantics (cross-checked each run by native replay of solver models), z3 unsat answers. binary.Uvarint and math/bits.Len64 are part of the encoding (Uvarint from its SSA, Len64 as its exact definition). Outside the bound: byte strings longer than stated for ReadVarUint/Skip; tag indexes above 2^28 (quick) / 2^60 (thorough).",
